@@ -11,14 +11,16 @@ Definition mkd (id body : nat) (bt : bool) (meth : list nat) (paths : list strin
   {| d_id := id; d_uid := 10 * id + body; d_body := body; d_bt := bt; d_meth := meth; d_paths := map sl paths |}.
 
 (** the repository over the transcribed tree, along a history *)
-Definition t_run (ops : list op) : trepo := fold_left (fun st o => fst (t_step st o)) ops t_empty_repo.
+Definition t_run (ops : list op) : trepo := fold_left (fun st o => fst (t_step no_fix st o)) ops t_empty_repo.
+Local Notation run := (Model.run no_fix).
+Local Notation fresh := (Spec.fresh no_fix).
 
 (** the answers to compare: label of the rule found *)
 Definition m_answer (st : repo) (meth : nat) (path : string) : option nat :=
-  match find_rule true (index st) (sl path) (accepts meth) with Some r => Some (d_uid (r_def r)) | None => None end.
+  match find_rule false (index st) (sl path) (accepts meth) with Some r => Some (d_uid (r_def r)) | None => None end.
 
 Definition t_answer (st : trepo) (meth : nat) (path : string) : option nat :=
-  match t_find_rule true (index st) (sl path) (accepts meth) with Some r => Some (d_uid (r_def r)) | None => None end.
+  match t_find_rule false (index st) (sl path) (accepts meth) with Some r => Some (d_uid (r_def r)) | None => None end.
 
 (** C06-F1: rules [A,B] on /x, the update changes only A *)
 Definition w_F1 : list op :=
@@ -95,7 +97,7 @@ Lemma w_F2_ok : wf_history w_F2 = true /\ guard_F2 w_F2 = true /\
 Proof. vm_compute. repeat split; reflexivity. Qed.
 
 Lemma w_F3_ok : wf_history w_F3 = true /\ guard_F3 w_F3 = true /\
-  snd (t_step (t_run [hd (Delete 0) w_F3]) (nth 1 w_F3 (Delete 0))) = Some EDelete /\
+  snd (t_step no_fix (t_run [hd (Delete 0) w_F3]) (nth 1 w_F3 (Delete 0))) = Some EDelete /\
   t_answer (t_run w_F3) 0 "/a:b" = Some 0 /\ t_answer (t_run (fresh_ops (current w_F3))) 0 "/a:b" = Some 1.
 Proof. vm_compute. repeat split; reflexivity. Qed.
 
@@ -107,7 +109,7 @@ Lemma w_F4_ok : wf_history w_F4 = true /\ guard_F4 w_F4 = true /\
   m_answer (run w_F4) 0 "/d" = Some 0 /\ m_answer (fresh (current w_F4)) 0 "/d" = Some 1.
 Proof. vm_compute. repeat split; reflexivity. Qed.
 
-Lemma w_F4p_ok : guard_F4 w_F4p = true /\ snd (t_step (t_run w_F4p) (Delete 0)) = Some EPanic.
+Lemma w_F4p_ok : guard_F4 w_F4p = true /\ snd (t_step no_fix (t_run w_F4p) (Delete 0)) = Some EPanic.
 Proof. vm_compute. repeat split; reflexivity. Qed.
 
 Lemma w_F5_ok : wf_history w_F5 = true /\ guard_F5 w_F5 = true /\
